@@ -16,13 +16,38 @@ dur table <num> <n> (<ikey-hex> <val-hex>)*         ⇒ ok      table file, as i
 dur tablebad <num>                                  ⇒ ok      table file present but unreadable
 dur recover                                         ⇒ ok <nlive> <crc32c hex (8 digits) of "<hexk>=<hexv>\n"…>
                                                      | err <missing-files|corrupted|other>
+dur rebuild                                         ⇒ ok <nlive> <crc>      what `leveldb.Recover` makes of the tables
+                                                       and journals of the image (`Dur.rebuildImage`; the manifest
+                                                       and `CURRENT` are not needed)
+dur rebuildx                                        ⇒ ok seq=<db.seq> (<hexk>=<first 12 bytes of v, hex>)*   (debugging aid)
 dur recoverx                                        ⇒ the same, followed by ` seq=<db.seq> j=<stJournalNum>
                                                        replayed=<journal nums> live=[<level>:<num>,…]` (debugging aid)
 dur batch <hex>                                     ⇒ ok <seq> <n> (<kind> <key> <val>)* | err     (`Batch.decode`)
 dur rec <hex>                                       ⇒ ok <canonical record> | err                 (`SessionRecord.decode`)
 ```
-Hex lower case, `-` for the empty string.  The digest runs over the live pairs in comparer order, key and
-value in plain lower-case hex (empty = nothing between the separators).
+Trace validation of the write path under storage faults (C08): the recorded journal operations of every client
+write are replayed through `Dur.step` (actions `wAppend/wSync/wApply/wPublish/wAck` with the recorded
+outcomes); every line answers `ok` or `illegal <why>` (the machine cannot take that step):
+```
+dur w reset [<consumeSeqOnJournalError 0|1>]        ⇒ ok      machine := `Dur.init` (journal 2 empty), default 1
+dur w put <sync 0|1> <n> (<kind> <key> <val>)*      ⇒ ok      a client `Write` starts (the writer must be idle)
+dur w append <ok|fail|faileff> <hex|->              ⇒ ok      the journal `Write` of the group and its outcome; the
+                                                       bytes that reached the file (one journal record = header,
+                                                       batch) must decode to the machine's group: sequence number
+                                                       `db.seq+1` and the records of `put`
+dur w noappend                                      ⇒ ok      the call failed without a storage operation (the journal
+                                                       writer's sticky error) = `append fail -`
+dur w sync <ok|fail|faileff>                        ⇒ ok      the journal `Sync`
+dur w ret <ok|err>                                  ⇒ ok      the call returned: `ok` = the machine applies, publishes and
+                                                       acknowledges (possible only after the `Sync` of a sync
+                                                       write); `err` = the machine must be idle with the group failed
+dur w scan                                          ⇒ ok <nlive> <crc>   contents of the running DB (the write buffer)
+dur w reopen                                        ⇒ ok <nlive> <crc>   contents after Close + Open (`recoverR` on the disk)
+dur w crash                                         ⇒ ok <nlive> <crc>   contents after a crash that loses every unsynced
+                                                       journal byte + Open
+```
+Hex lower case, `-` for the empty string.  The digest runs over the live pairs sorted bytewise by raw key
+(whatever the comparer), key and value in lower-case hex with `-` for the empty string (`gen.Hex`).
 -/
 namespace GoLevel.Driver
 open GoLevel GoLevel.Dur
@@ -32,6 +57,10 @@ structure DurState where
   flags : StrictFlags := {}
   cfg : Cfg := {}
   img : Image := {}
+  /-- write-path trace validation: configuration, machine state, the client write in progress -/
+  wcfg : Cfg := {}
+  wm : St × Disk := Dur.init
+  wcur : Option (List Batch.Rec × Bool) := none
 
 /-- `Comparer.Name()` of the comparers both sides know (`harness/gen.Comparer`) -/
 def cmpNameById (id : String) : Bytes :=
@@ -40,8 +69,9 @@ def cmpNameById (id : String) : Bytes :=
 def errStr : ErrClass → String
   | .missingFiles => "missing-files" | .corrupted => "corrupted" | .other => "other"
 
-def contentsDigest (ps : List (Bytes × Bytes)) : String :=
-  let bytes : Bytes := ps.flatMap fun (k, v) => (toHex k ++ "=" ++ toHex v ++ "\n").toUTF8.toList
+def contentsDigest (ps0 : List (Bytes × Bytes)) : String :=
+  let ps := ps0.mergeSort fun a b => bytewise.cmp a.1 b.1 != .gt
+  let bytes : Bytes := ps.flatMap fun (k, v) => (toHexField k ++ "=" ++ toHexField v ++ "\n").toUTF8.toList
   hex32 (CRC.crc32c bytes)
 
 def bit? (s : String) : Option Bool := if s = "1" then some true else if s = "0" then some false else none
@@ -64,7 +94,98 @@ def recordStr (r : Manifest.SessionRecord) : String :=
   s!"pj={optNatStr r.prevJournalNum} nf={optNatStr r.nextFileNum} seq={optNatStr r.seqNum} " ++
   s!"cp=[{",".intercalate cp}] del=[{",".intercalate dl}] add=[{",".intercalate ad}]"
 
+def parseRecs : Nat → List String → Option (List Batch.Rec)
+  | 0, [] => some []
+  | n+1, kd :: k :: v :: rest => do
+    let kd ← kd.toNat?; let kb ← fromHex k; let vb ← fromHex v
+    let rs ← parseRecs n rest
+    pure (⟨kd, kb, vb⟩ :: rs)
+  | _, _ => none
+
+def outcome? : String → Option Outcome
+  | "ok" => some .ok | "fail" => some .failNoEffect | "faileff" => some .failEffect | _ => none
+
+def digestLine (ps : List (Bytes × Bytes)) : String := s!"ok {ps.length} {contentsDigest ps}"
+
+/-- one journal record as it reached the file (the journal is shorter than one block, so the chunk header is
+    the same at every offset) must be the machine's next group -/
+def checkRecord (s : St) (recs : List Batch.Rec) (bytes : Bytes) : Option String :=
+  let d := Journal.decode true true bytes
+  match d.records, d.final with
+  | [payload], .eof =>
+    match Batch.decode payload with
+    | some (seq, rs) =>
+      if seq ≠ s.seq + 1 then some s!"record-seq={seq}-machine={s.seq + 1}"
+      else if rs ≠ recs then some "record-contents" else none
+    | none => some "record-undecodable"
+  | _, _ => some "not-one-record"
+
+/-- take the machine through the given actions -/
+def stepAll (cfg : Cfg) : St × Disk → List Act → Option (St × Disk)
+  | sd, [] => some sd
+  | sd, a :: as => (Dur.step cfg sd.1 sd.2 a).bind (stepAll cfg · as)
+
+def handleW (st : DurState) : List String → Option (DurState × String)
+  | ["reset"] => some ({ st with wcfg := {}, wm := Dur.init, wcur := none }, "ok")
+  | ["reset", b] => do
+    let b ← bit? b
+    pure ({ st with wcfg := { consumeSeqOnJournalError := b }, wm := Dur.init, wcur := none }, "ok")
+  | "put" :: sy :: n :: rest => do
+    let sy ← bit? sy; let n ← n.toNat?
+    let recs ← parseRecs n rest
+    if st.wm.1.w ≠ .idle ∨ st.wcur.isSome then pure (st, "illegal writer-busy")
+    else pure ({ st with wcur := some (recs, sy) }, "ok")
+  | ["append", o, h] => do
+    let o ← outcome? o
+    let bytes ← fromHex h
+    match st.wcur with
+    | none => pure (st, "illegal no-put")
+    | some (recs, sy) =>
+      match (if bytes.isEmpty then none else checkRecord st.wm.1 recs bytes) with
+      | some why => pure (st, s!"illegal {why}")
+      | none =>
+        if (o = .failNoEffect) ≠ bytes.isEmpty then pure (st, "illegal effect-vs-bytes") else
+        match Dur.step st.wcfg st.wm.1 st.wm.2 (.wAppend recs sy o) with
+        | some sd => pure ({ st with wm := sd }, "ok")
+        | none => pure (st, "illegal append")
+  | ["noappend"] =>
+    match st.wcur with
+    | none => some (st, "illegal no-put")
+    | some (recs, sy) =>
+      match Dur.step st.wcfg st.wm.1 st.wm.2 (.wAppend recs sy .failNoEffect) with
+      | some sd => some ({ st with wm := sd }, "ok")
+      | none => some (st, "illegal append")
+  | ["sync", o] => do
+    let o ← outcome? o
+    match Dur.step st.wcfg st.wm.1 st.wm.2 (.wSync o) with
+    | some sd => pure ({ st with wm := sd }, "ok")
+    | none => pure (st, "illegal sync")
+  | ["ret", "ok"] =>
+    match stepAll st.wcfg st.wm [.wApply, .wPublish, .wAck] with
+    | some sd => some ({ st with wm := sd, wcur := none }, "ok")
+    | none => some (st, "illegal ack")
+  | ["ret", "err"] =>
+    let s := st.wm.1
+    let lastFailed : Bool := match s.issued.getLast? with
+      | some i => decide (i.status = .failed)
+      | none => false
+    if s.w = .idle ∧ lastFailed = true ∧ st.wcur.isSome = true then some ({ st with wcur := none }, "ok")
+    else some (st, "illegal error-return")
+  | ["scan"] =>
+    let s := st.wm.1
+    some (st, digestLine (contentsOf bytewise (s.mem.flatMap Grp.ents) s.seq))
+  | ["reopen"] =>
+    match recoverR st.wcfg st.wm.2 with
+    | .ok r => some (st, digestLine (r.contents bytewise))
+    | .error e => some (st, s!"err {errStr e}")
+  | ["crash"] =>
+    match recoverR st.wcfg (crashWith {} st.wm.2) with
+    | .ok r => some (st, digestLine (r.contents bytewise))
+    | .error e => some (st, s!"err {errStr e}")
+  | _ => none
+
 def handleDur (st : DurState) : List String → Option (DurState × String)
+  | "w" :: rest => handleW st rest
   | ["reset", c] => do
     let _ ← cmpById c
     pure ({ cmpId := c }, "ok")
@@ -99,6 +220,20 @@ def handleDur (st : DurState) : List String → Option (DurState × String)
     | .ok r =>
       let ps := contents c r
       pure (st, s!"ok {ps.length} {contentsDigest ps}")
+  | ["rebuild"] => do
+    let c ← cmpById st.cmpId
+    match rebuildImage st.flags st.img with
+    | .error e => pure (st, s!"err {errStr e}")
+    | .ok r =>
+      let ps := contents c r
+      pure (st, s!"ok {ps.length} {contentsDigest ps}")
+  | ["rebuildx"] => do
+    let c ← cmpById st.cmpId
+    match rebuildImage st.flags st.img with
+    | .error e => pure (st, s!"err {errStr e}")
+    | .ok r =>
+      let ps := (contents c r).mergeSort fun a b => bytewise.cmp a.1 b.1 != .gt
+      pure (st, s!"ok seq={r.seq} " ++ " ".intercalate (ps.map fun (k, v) => toHexField k ++ "=" ++ toHexField (v.take 12)))
   | ["recoverx"] => do
     let c ← cmpById st.cmpId
     match recover st.cfg (cmpNameById st.cmpId) st.flags st.img with
